@@ -72,9 +72,16 @@ class SessionCache(object):
     def __setitem__(self, sessionID, session):
         self.lock.acquire()
         try:
+            sessionID = bytes(sessionID)
+
+            #If the ID is already cached, drop its old slot from the list so
+            #that its expiry or eviction can't delete the new element
+            if sessionID in self.entriesDict:
+                self._removeFromList(sessionID)
+
             #Add the new element
-            self.entriesDict[bytes(sessionID)] = session
-            self.entriesList[self.lastIndex] = (bytes(sessionID), time.time())
+            self.entriesDict[sessionID] = session
+            self.entriesList[self.lastIndex] = (sessionID, time.time())
             self.lastIndex = (self.lastIndex+1) % len(self.entriesList)
 
             #If the cache is full, we delete the oldest element to make an
@@ -84,6 +91,18 @@ class SessionCache(object):
                 self.firstIndex = (self.firstIndex+1) % len(self.entriesList)
         finally:
             self.lock.release()
+
+    #Remove the slot of sessionID, keeping the others in order
+    def _removeFromList(self, sessionID):
+        size = len(self.entriesList)
+        index = newLast = self.firstIndex
+        while index != self.lastIndex:
+            entry = self.entriesList[index]
+            if entry[0] != sessionID:
+                self.entriesList[newLast] = entry
+                newLast = (newLast+1) % size
+            index = (index+1) % size
+        self.lastIndex = newLast
 
     #Delete expired items
     def _purge(self):
